@@ -85,10 +85,7 @@ def _run(ctx):
             rd = ios[0] if ios else None
             one_le_i32 = (len(ios) == 1 and rd[1] == 'read' and rd[3]['ty'] == 'i32' and rd[3]['endian'] == 'LittleEndian')
             code_term = rd[-1] if rd else None
-            val = None
-            for t, v in p.cons:
-                if t == code_term:
-                    val = v
+            val = util.scrutinee_constraint(p, code_term)        # all the tests of the value on this path, combined
             if isinstance(val, int):
                 seen_codes.add(val)
                 good = one_le_i32 and is_agg(p.ret, None, 'Ok') and util.variant_name(agg_field(p.ret, '0')) == codes.get(val)
